@@ -16,6 +16,7 @@ mod lock_sites;
 mod pure_fns;
 mod panic_sites;
 mod command_kinds;
+mod store_sections;
 
 fn main() {
     let args: Vec<String> = std::env::args().collect();
@@ -36,6 +37,7 @@ fn main() {
         "lock_sites" => lock_sites::run(&repo),
         "panic_sites" => panic_sites::run(&repo),
         "command_kinds" => command_kinds::run(&repo),
+        "store_sections" => store_sections::run(&repo),
         t if t == "pure_fns" || t.starts_with("pure_fns:") => pure_fns::run(&repo, t),
         t => {
             eprintln!("unknown table {t}");
